@@ -855,6 +855,17 @@ func c09Family(ctx *Ctx) error {
 			add(coGenSingle(rng, t), "singles")
 		}
 	}
+	// 5b. every named record type as the FIRST record of a compound group (it names the event and its
+	// own normalisation applies), with an incoming / outgoing socket syscall or a file syscall and the
+	// companions those bring: fields the first record's normalisation moves (addr, hostname, terminal,
+	// acct, exe ...) meet what SOCKADDR / PATH records set
+	for rep := 0; rep < ctx.N(1, 6) && !stop(); rep++ {
+		for _, t := range coOtherTypes {
+			for _, sc := range []string{"43", "42", "45", "2"} {
+				add(coGenFirstOther(rng, t, sc), "first_other")
+			}
+		}
+	}
 	// 6. random groups, edited caches, malformed groups
 	for i := 0; i < ctx.N(6000, 1200000) && !stop(); i++ {
 		switch {
